@@ -3,6 +3,10 @@
 -/
 import Gzx.Proofs.BitsRot90
 import Gzx.Proofs.BitsNext
+import Gzx.Proofs.BitsStr
+import Gzx.Proofs.BitsMatStr
+import Gzx.Proofs.BitsScan2
+import Gzx.Proofs.BitsParse
 namespace Gzx.Bits
 open Gzx
 
